@@ -40,6 +40,9 @@ def plan_dp(tier, seed, props):
     if not q:
         items += [item("scalarr_7_2", NONE, 0.5), item("nestarr_3", NONE, 0.05), item("obj_3", NONE, 0.3),
                   item("keyed_3", NONE, 1.0)]
+    # behaviours of the DocEdit machine: long arrays, deep nesting, several independent edits
+    for depth, n in ((3, 400 if q else 6000), (5, 300 if q else 6000)):
+        items += [dict(family=L.ensure_edits(seed, n, depth), opts=NONE, frac=1.0, void=False, nf=False, mode="paired")]
     if listonly:
         return items
     others = [SET, MSET, MERGE, SETMERGE, MSETMERGE]
@@ -65,6 +68,7 @@ def plan_pt(tier, seed, props):
     q = tier == "quick"
     items = []
     if "C03" in props:
+        items += [dict(family=L.ensure_edits(seed, 400 if q else 6000, 3), opts=NONE, frac=1.0, void=False, nf=False, mode="paired", max=8)]
         items += [item("scalarr_4_3", NONE, 0.08 if q else 0.6, False, max=8 if q else 14),
                   item("nestarr_2", NONE, 0.08 if q else 0.6, False, max=8 if q else 14),
                   item("deep", NONE, 0.06 if q else 0.6, False, max=8 if q else 14),
